@@ -45,3 +45,184 @@ def iter_in_contract():
                     requires=[('length', lambda a: NSEQ >= 0)],
                     ensures=[('membership up to the comparator: True <=> some element compares equal', lambda a, r: expect(r, 'bool') == z3.Exists([j], z3.And(0 <= j, j < NSEQ, CMPF(a['value'].t, ELEM(j)) == 0)))],
                     raises={}, handlers={'cmp': h_cmp}, loops={0: {'kind': 'inv', 'inv': inv}})
+
+
+# ------------------------------------------------------------------------------------------------------------------------------------------
+# The comparators that order and finally compare normalised patterns (compare/comparison.py, compare/observation.py).  What the property needs
+# of each is that the SIGN of its result is a total preorder (sorting is well defined, "== 0" is an equivalence) and, for the leaf
+# comparators, that 0 is returned exactly for equal operands.  The single-call facts are `ensures` clauses; reflexivity, antisymmetry and
+# transitivity are lemmas over two / three instances of the function's own path summary (vf/summary.py), so they hold of the code as it is now.
+CC = 'stix2/equivalence/pattern/compare/comparison.py'
+CO = 'stix2/equivalence/pattern/compare/observation.py'
+# STIX 2.1 section 9.6.1 comparison operators, as spelled by the pattern object model
+OPERATORS = ['=', '!=', '>', '<', '>=', '<=', 'IN', 'LIKE', 'MATCHES', 'ISSUBSET', 'ISSUPERSET']
+
+
+def _in_ops(t): return z3.Or(*[t == z3.StringVal(o) for o in OPERATORS])
+
+
+def comparison_operator_cmp_contract():
+    def call(py):
+        from stix2.equivalence.pattern.compare.comparison import comparison_operator_cmp
+        return comparison_operator_cmp(py['op1'], py['op2'])
+    return Contract(f'{CC}::comparison_operator_cmp', props=['C09'], params={'op1': 'str', 'op2': 'str'},
+                    requires=[('operators of the pattern language', lambda a: z3.And(_in_ops(a['op1'].t), _in_ops(a['op2'].t)))],
+                    ensures=[('0 exactly for the same operator', lambda a, r: (expect(r, 'int') == 0) == (a['op1'].t == a['op2'].t))],
+                    raises={}, replay=Replay(call=call), handlers={'generic_cmp': _h_generic_cmp})
+
+
+def _h_generic_cmp(x, e, p, site):
+    """callee contract of generic_cmp (proved above for int and str operands): the three-way comparison of its arguments"""
+    for p1, vs in x.ev_seq(list(e.args), p):
+        if isinstance(vs, Exc):
+            yield p1, vs; continue
+        a, b = vs
+        if a.sort != b.sort or a.sort not in ('int', 'str'): raise Unsupported(site + f' generic_cmp({a.sort}, {b.sort}): no proved variant of the callee contract')
+        yield p1, Int(z3.If(a.t < b.t, -1, z3.If(b.t < a.t, 1, 0)))
+
+
+def bool_cmp_contract():
+    def call(py):
+        from stix2.equivalence.pattern.compare.comparison import bool_cmp
+        from stix2.patterns import BooleanConstant
+        return bool_cmp(BooleanConstant(py['value1.value']), BooleanConstant(py['value2.value']))
+    return Contract(f'{CC}::bool_cmp', props=['C09'],
+                    params={'value1': E.Rec(value=Bool(z3.Bool('value1.value'))), 'value2': E.Rec(value=Bool(z3.Bool('value2.value')))},
+                    ensures=[('0 exactly for equal truth values', lambda a, r: (expect(r, 'int') == 0) == (a['value1'].x['value'].t == a['value2'].x['value'].t))],
+                    raises={}, replay=Replay(call=call, lower=lambda m: {'value1.value': bool(m.get('value1.value')), 'value2.value': bool(m.get('value2.value'))}))
+
+
+def path_component_cmp_contract(s1, s2):
+    def call(py):
+        from stix2.equivalence.pattern.compare.comparison import object_path_component_cmp
+        return object_path_component_cmp(py['comp1'], py['comp2'])
+    def spec(a, r):
+        # what the property needs (the direction of the order is the implementation's choice; that it IS an order is the lemmas' business)
+        c1, c2 = a['comp1'], a['comp2']
+        return (expect(r, 'int') == 0) == ((c1.t == c2.t) if s1 == s2 else z3.BoolVal(False))
+    return Contract(f'{CC}::object_path_component_cmp', props=['C09'], params={'comp1': s1, 'comp2': s2}, note=f'path steps of sort ({s1}, {s2})',
+                    ensures=[('0 exactly for equal steps (an index step never equals a property name)', spec)],
+                    raises={}, replay=Replay(call=call), handlers={'generic_cmp': _h_generic_cmp})
+
+
+def generic_constant_cmp_contract(sort):
+    def call(py):
+        from stix2.equivalence.pattern.compare.comparison import generic_constant_cmp
+        from stix2.patterns import IntegerConstant, StringConstant
+        K = IntegerConstant if sort == 'int' else StringConstant
+        return generic_constant_cmp(K(py['const1.value']), K(py['const2.value']))
+    mk = (lambda n: Int(z3.Int(n))) if sort == 'int' else (lambda n: Str(z3.String(n)))
+    return Contract(f'{CC}::generic_constant_cmp', props=['C09'], note=f'constants whose value is of sort {sort}',
+                    params={'const1': E.Rec(value=mk('const1.value')), 'const2': E.Rec(value=mk('const2.value'))},
+                    ensures=[('0 exactly for equal values', lambda a, r: (expect(r, 'int') == 0) == (a['const1'].x['value'].t == a['const2'].x['value'].t))],
+                    raises={}, replay=Replay(call=call, lower=lambda m: {'const1.value': m['const1.value'], 'const2.value': m['const2.value']}), handlers={'generic_cmp': _h_generic_cmp})
+
+
+# callee contracts used by simple_comparison_expression_cmp: each callee is a three-way comparator over an abstract domain (uninterpreted)
+TOK = z3.DeclareSort('Tok')
+PATHCMP = z3.Function('object_path_cmp', TOK, TOK, z3.IntSort())
+OPCMP = z3.Function('comparison_operator_cmp', TOK, TOK, z3.IntSort())
+CONSTCMP = z3.Function('constant_cmp', TOK, TOK, z3.IntSort())
+
+
+def _h_tokcmp(fn):
+    def h(x, e, p, site):
+        for p1, vs in x.ev_seq(list(e.args), p):
+            if isinstance(vs, Exc): yield p1, vs
+            elif len(vs) != 2 or vs[0].sort != 'tok' or vs[1].sort != 'tok': raise Unsupported(site + ' comparator applied to something else than the two operands\' components')
+            else: yield p1, Int(fn(vs[0].t, vs[1].t))
+    return h
+
+
+def _expr(n):
+    return E.Rec(lhs=Val('tok', z3.Const(n + '.lhs', TOK)), operator=Val('tok', z3.Const(n + '.operator', TOK)), rhs=Val('tok', z3.Const(n + '.rhs', TOK)),
+                 negated=Bool(z3.Bool(n + '.negated')))
+
+
+def simple_comparison_expression_cmp_contract():
+    def callee_contracts(a):
+        # what the callees guarantee of the calls this function can make on the components of its two operands (their contracts, instantiated)
+        ax = []
+        for fn, f in ((PATHCMP, 'lhs'), (OPCMP, 'operator'), (CONSTCMP, 'rhs')): ax += preorder_axioms(fn, [a['expr1'].x[f].t, a['expr2'].x[f].t])
+        return z3.And(*ax)
+    return Contract(f'{CC}::simple_comparison_expression_cmp', props=['C09'], params={'expr1': _expr('expr1'), 'expr2': _expr('expr2')},
+                    requires=[('callee contracts: the three component comparators are total preorders', callee_contracts)],
+                    ensures=[('0 only if path, operator, negation and constant all compare equal', lambda a, r: z3.Implies(expect(r, 'int') == 0, z3.And(
+                        PATHCMP(a['expr1'].x['lhs'].t, a['expr2'].x['lhs'].t) == 0, OPCMP(a['expr1'].x['operator'].t, a['expr2'].x['operator'].t) == 0,
+                        a['expr1'].x['negated'].t == a['expr2'].x['negated'].t, CONSTCMP(a['expr1'].x['rhs'].t, a['expr2'].x['rhs'].t) == 0)))],
+                    raises={}, handlers={'object_path_cmp': _h_tokcmp(PATHCMP), 'comparison_operator_cmp': _h_tokcmp(OPCMP), 'constant_cmp': _h_tokcmp(CONSTCMP)},
+                    assumptions=['callee contracts of simple_comparison_expression_cmp: object_path_cmp and constant_cmp are total preorders on their domains (assumed here; '
+                                 'comparison_operator_cmp is proved; both are exercised by the bounded stand-in, the generator-based iter_lex_cmp under them is outside the modelled subset)'])
+
+
+def preorder_axioms(fn, toks):
+    """instances, on the given tokens, of: fn's sign is reflexive, antisymmetric, transitive (the callee's contract)"""
+    from vf.summary import sgn
+    ax = []
+    for a in toks:
+        ax.append(fn(a, a) == 0)
+        for b in toks:
+            ax.append(sgn(fn(a, b)) == -sgn(fn(b, a)))
+            for c in toks: ax.append(z3.Implies(z3.And(fn(a, b) <= 0, fn(b, c) <= 0), fn(a, c) <= 0))
+    return ax
+
+
+def run_comparators(chk):
+    """proves the comparator contracts and the order lemmas over their summaries; returns nothing (everything is recorded in the check)"""
+    from vf.summary import Summary, order_lemmas, sgn
+    def lemmas(rep, params, mk, label, extra=lambda acts: []):
+        s = Summary(rep, params)
+        if not s.ok:
+            chk.undecided_notes.append(f'{label}: no summary ({s.why})'); return
+        F = lambda a, b: s.apply(a, b)
+        for name, assume, claim in order_lemmas(F, lambda a: [], mk, label + ': '):
+            # the precondition of the contract, on every pair of actuals the lemma uses, plus the callee axioms on the tokens involved
+            chk.lemma(name, claim, assumptions=list(assume) + extra(mk.made))
+    class Mk:
+        def __init__(s, f): s.f = f; s.made = []
+        def __call__(s, n):
+            v = s.f(n); s.made.append(v); return v
+    # comparison_operator_cmp
+    c = comparison_operator_cmp_contract(); rep = chk.prove(c); chk.canary(c)
+    mk = Mk(lambda n: [z3.String('op_' + n)])
+    lemmas(rep, ['op1', 'op2'], mk, 'comparison_operator_cmp', lambda made: [_in_ops(m[0]) for m in made])
+    # bool_cmp
+    c = bool_cmp_contract(); rep = chk.prove(c); chk.canary(c)
+    mk = Mk(lambda n: [z3.Bool('b_' + n)])
+    lemmas(rep, ['value1', 'value2'], mk, 'bool_cmp')
+    # generic_constant_cmp
+    for sort in ('int', 'str'):
+        c = generic_constant_cmp_contract(sort); rep = chk.prove(c)
+        mk = Mk((lambda n: [z3.Int('gc_' + n)]) if sort == 'int' else (lambda n: [z3.String('gc_' + n)]))
+        lemmas(rep, ['const1', 'const2'], mk, f'generic_constant_cmp ({sort})')
+    # object_path_component_cmp: one summary per pair of operand kinds; the lemmas range over every combination of kinds
+    sums = {}
+    for s1 in ('int', 'str'):
+        for s2 in ('int', 'str'):
+            c = path_component_cmp_contract(s1, s2); rep = chk.prove(c)
+            sums[s1, s2] = Summary(rep, ['comp1', 'comp2'])
+    if all(s.ok for s in sums.values()):
+        mkv = lambda sort, n: [z3.Int(n)] if sort == 'int' else [z3.String(n)]
+        for s1 in ('int', 'str'):
+            a = mkv(s1, 'pa_' + s1)
+            chk.lemma(f'object_path_component_cmp ({s1}): reflexive', sums[s1, s1].apply(a, a) == 0)
+            for s2 in ('int', 'str'):
+                b = mkv(s2, 'pb_' + s2)
+                chk.lemma(f'object_path_component_cmp ({s1}, {s2}): antisymmetric', sgn(sums[s1, s2].apply(a, b)) == -sgn(sums[s2, s1].apply(b, a)))
+                for s3 in ('int', 'str'):
+                    c3 = mkv(s3, 'pc_' + s3)
+                    chk.lemma(f'object_path_component_cmp ({s1}, {s2}, {s3}): transitive',
+                              z3.Implies(z3.And(sums[s1, s2].apply(a, b) <= 0, sums[s2, s3].apply(b, c3) <= 0), sums[s1, s3].apply(a, c3) <= 0))
+    else:
+        chk.undecided_notes.append('object_path_component_cmp: no summary (' + '; '.join(s.why for s in sums.values() if not s.ok) + ')')
+    # simple_comparison_expression_cmp: a total preorder provided its three callees are (modular: the callees' contracts, not their bodies)
+    c = simple_comparison_expression_cmp_contract(); rep = chk.prove(c); chk.canary(c)
+
+    def mk_expr(n): return [z3.Const(f'e_{n}.lhs', TOK), z3.Bool(f'e_{n}.negated'), z3.Const(f'e_{n}.operator', TOK), z3.Const(f'e_{n}.rhs', TOK)]     # leaf_terms order: sorted field names
+    mk = Mk(mk_expr)
+
+    def callee_axioms(made):
+        ax = []
+        for fn, idx in ((PATHCMP, 0), (OPCMP, 2), (CONSTCMP, 3)): ax += preorder_axioms(fn, [m[idx] for m in made])
+        return ax
+    lemmas(rep, ['expr1', 'expr2'], mk, 'simple_comparison_expression_cmp', callee_axioms)
